@@ -39,6 +39,7 @@ RACE_LVSS = [H("races", "race_lvss", 2, 3, args=[4, 0, 0], **{"max-failures": 60
 
 CHECKS = {
     "C19": {"harnesses": C19_HARNESSES},
+    "C13": {"harnesses": [H("streams", "strm_seq", args=[a]) for a in range(12)] + [H("streams", "strm_sources")]},
     "C17": {
         "harnesses": [
             H("bulk", "bulk_findif", args=[0], **{"hang-timeout": 30}),
